@@ -46,6 +46,8 @@ var (
 	c08Typed   *alt.Recomposer
 
 	c08StructExprs []jp.Expr
+
+	c08OrderedExprs []jp.Expr
 )
 
 // zDir and zFile refer to each other (plans of mutually recursive types are built together).
@@ -183,6 +185,11 @@ func c08Shared() {
 		jp.Expr{jp.Root('$'), jp.Child("b"), jp.Nth(1)},
 		jp.Expr{jp.Root('$'), jp.Child("b"), jp.Union{int8(1), uint(2), 0}},
 	)
+	// (paths whose first match does not depend on Go's map order, for the *One / First* variants)
+	c08OrderedExprs = c08OrderedExprs[:0:0]
+	for _, s := range []string{"$.a", "$.b[1]", "$.b[*]", "$.b[0:2]", "$.c.e[1].x", "$.b[-1]", "$.c.e[*].x", "$.b[?(@ > 1)]"} {
+		c08OrderedExprs = append(c08OrderedExprs, jp.MustParseString(s))
+	}
 	c08StructExprs = c08StructExprs[:0:0]
 	for _, s := range []string{"$.In.S", "$.L[*].N", "$.tg", "$..N", "$['A','B']", "$.Ptr.F", "$.L[?(@.N > 0)].S", "$.Any.k.S", "$.*", "$.L[-1]", "$.In['S','F']", "$..[?(@.F > 1)]"} {
 		c08StructExprs = append(c08StructExprs, jp.MustParseString(s))
@@ -231,6 +238,9 @@ var c08Menu = []string{
 	"alt.Decompose(many types)", "oj.JSON(many types)", "sen.String(many types)", "alt.Generify(many types)",
 	// a path parsed here and now (not a shared one), extended with the builder methods and used
 	"jp.Parse+extend", "jp.ParseString+Get",
+	// the *One / Must* / gen-node variants of the shared-path operations
+	"jp.SetOne", "jp.DelOne", "jp.ModifyOne", "jp.RemoveOne", "jp.MustSet", "jp.MustDel", "jp.MustModify", "jp.MustRemove", "jp.FirstFound",
+	"jp.GetNodes(gen)", "jp.FirstNode(gen)", "jp.Get(gen)", "jp.Set(gen)", "jp.Has(gen)", "jp.Locate(gen)", "jp.Remove(gen)", "jp.BracketString+Normal",
 	// sources that spell a key in more than one way
 	"alt.Recompose(two spellings)", "Recomposer.Recompose(two spellings)",
 }
@@ -353,7 +363,7 @@ func drawOp08(t *rapid.T, th *theme08) *op08 {
 	switch {
 	case o.Fn == "oj.Marshal(unencodable)":
 		o.Val = make(chan int)
-	case strings.Contains(o.Fn, "failing") || strings.Contains(o.Fn, "panicking") || strings.Contains(o.Fn, "reader error") || strings.Contains(o.Fn, "callback") || strings.Contains(o.Fn, "empty") || strings.Contains(o.Fn, "big") || strings.Contains(o.Fn, "invalid") || strings.Contains(o.Fn, "ints") || o.Fn == "alt.GenAlter(struct)" || o.Fn == "alt.Alter(struct)" || strings.Contains(o.Fn, "keeper") || strings.HasSuffix(o.Fn, "(struct)") && strings.HasPrefix(o.Fn, "jp.") || strings.HasPrefix(o.Fn, "alt.Recompose(") || strings.HasPrefix(o.Fn, "Recomposer.") || strings.HasSuffix(o.Fn, "(many types)") || strings.HasPrefix(o.Fn, "jp.Parse") || strings.HasSuffix(o.Fn, "(two spellings)"):
+	case strings.Contains(o.Fn, "failing") || strings.Contains(o.Fn, "panicking") || strings.Contains(o.Fn, "reader error") || strings.Contains(o.Fn, "callback") || strings.Contains(o.Fn, "empty") || strings.Contains(o.Fn, "big") || strings.Contains(o.Fn, "invalid") || strings.Contains(o.Fn, "ints") || o.Fn == "alt.GenAlter(struct)" || o.Fn == "alt.Alter(struct)" || strings.Contains(o.Fn, "keeper") || strings.HasSuffix(o.Fn, "(struct)") && strings.HasPrefix(o.Fn, "jp.") || strings.HasPrefix(o.Fn, "alt.Recompose(") || strings.HasPrefix(o.Fn, "Recomposer.") || strings.HasSuffix(o.Fn, "(many types)") || strings.HasPrefix(o.Fn, "jp.Parse") || strings.HasSuffix(o.Fn, "One") || strings.HasPrefix(o.Fn, "jp.Must") || strings.HasSuffix(o.Fn, "(gen)") || o.Fn == "jp.FirstFound" || o.Fn == "jp.BracketString+Normal" || strings.HasSuffix(o.Fn, "(two spellings)"):
 	case strings.HasPrefix(o.Fn, "oj.JSON"), strings.HasPrefix(o.Fn, "oj.Marshal"), strings.HasPrefix(o.Fn, "oj.Write"), strings.HasPrefix(o.Fn, "sen.String"), o.Fn == "sen.Bytes", o.Fn == "sen.Write", strings.HasPrefix(o.Fn, "pretty."), o.Fn == "alt.Decompose", o.Fn == "alt.Generify(struct)":
 		// (pretty.WriteJSON included)
 		o.Val, o.Desc = drawVal08(t)
@@ -687,6 +697,83 @@ func (o *op08) exec() (r ret08) {
 		src := []any{map[string]int{"a": o.A, "b": o.B}, map[string]any{"c": o.A + o.B}, map[string]int{fmt.Sprintf("k%d", o.B): 1}}
 		_, err := alt.Recompose(src, &out)
 		r.canon = fmt.Sprintf("%v %v", err != nil, derefAll(reflect.ValueOf(out)))
+	case "jp.SetOne", "jp.DelOne", "jp.ModifyOne", "jp.RemoveOne", "jp.MustSet", "jp.MustDel", "jp.MustModify", "jp.MustRemove":
+		d := privateData(o.A)
+		x := c08Exprs[o.B%len(c08Exprs)]
+		if strings.HasSuffix(o.Fn, "One") {
+			x = c08OrderedExprs[o.B%len(c08OrderedExprs)]
+		}
+		var out any = d
+		var err error
+		func() {
+			defer func() {
+				if p := recover(); p != nil {
+					err = fmt.Errorf("%v", p) // the Must* variants report through a panic
+				}
+			}()
+			switch o.Fn {
+			case "jp.SetOne":
+				err = x.SetOne(d, "one")
+			case "jp.DelOne":
+				err = x.DelOne(d)
+			case "jp.ModifyOne":
+				out, err = x.ModifyOne(d, func(e any) (any, bool) { return "mod", true })
+			case "jp.RemoveOne":
+				out, err = x.RemoveOne(d)
+			case "jp.MustSet":
+				x.MustSet(d, "must")
+			case "jp.MustDel":
+				x.MustDel(d)
+			case "jp.MustModify":
+				out = x.MustModify(d, func(e any) (any, bool) { return "mod", true })
+			default:
+				out = x.MustRemove(d)
+			}
+		}()
+		r.canon = fmt.Sprintf("%v %s %s", err != nil, ref.Exact(d), ref.Exact(out))
+	case "jp.FirstFound":
+		v, ok := c08OrderedExprs[o.B%len(c08OrderedExprs)].FirstFound(privateData(o.A))
+		r.canon = fmt.Sprint(ok) + ref.Exact(v)
+	case "jp.GetNodes(gen)", "jp.FirstNode(gen)", "jp.Get(gen)", "jp.Set(gen)", "jp.Has(gen)", "jp.Locate(gen)", "jp.Remove(gen)":
+		var p gen.Parser
+		n, err := p.Parse(doc(o.A % 3))
+		if err != nil {
+			r.canon = "error"
+			break
+		}
+		x := c08Exprs[o.B%len(c08Exprs)]
+		switch o.Fn {
+		case "jp.GetNodes(gen)":
+			var ss []string
+			for _, g := range x.GetNodes(n) {
+				ss = append(ss, ref.Exact(nodeAny(g)))
+			}
+			sort.Strings(ss)
+			r.canon = strings.Join(ss, ";")
+		case "jp.FirstNode(gen)":
+			r.canon = ref.Exact(nodeAny(c08OrderedExprs[o.B%len(c08OrderedExprs)].FirstNode(n)))
+		case "jp.Get(gen)":
+			r.canon = exactSorted(x.Get(n))
+		case "jp.Has(gen)":
+			r.canon = fmt.Sprint(x.Has(n))
+		case "jp.Locate(gen)":
+			locs := x.Locate(n, 0)
+			ss := make([]string, len(locs))
+			for i, l := range locs {
+				ss[i] = l.String()
+			}
+			sort.Strings(ss)
+			r.canon = strings.Join(ss, ";")
+		case "jp.Set(gen)":
+			err := c08Exprs[o.B%6].Set(n, gen.String("new"))
+			r.canon = fmt.Sprintf("%v %s", err != nil, ref.Exact(nodeAny(n)))
+		default:
+			out, err := x.Remove(n)
+			r.canon = fmt.Sprintf("%v %s", err != nil, ref.Exact(out))
+		}
+	case "jp.BracketString+Normal":
+		x := c08Exprs[o.B%len(c08Exprs)]
+		r.canon = x.BracketString() + fmt.Sprint(x.Normal()) + string(x.Append(nil, o.A%2 == 0))
 	case "jp.Parse+extend":
 		text := []string{"$.c.e", "$.a.b.c.d", "$.c", "$.b[1].x.y.z", "$..d.e", "$.c.e[0].x.y.z.w.v"}[o.B%6]
 		x, err := jp.ParseString(text)
